@@ -40,10 +40,14 @@ Definition build_nodes (limit : option nat) (mods : list name) (imports : list (
 
 (* _create_edge(importer, importee): both flattened nodes exist, not a self edge;
    a pair that is a hierarchy pair is re-marked inherits=True afterwards *)
-Definition keep_import (ns : list name) (limit : option nat) (e : name * name) : option (name * name) :=
+(* an import becomes an edge only if both of its ends are nodes of the architecture built WITHOUT level limit
+   ([full]: _nodes_without_level_limit) - an import of something that is not part of the architecture (an excluded
+   file, a name that is no module) must not turn into an import of the ancestor its name is truncated to *)
+Definition keep_import (full ns : list name) (limit : option nat) (e : name * name) : option (name * name) :=
   let a := flatten limit (fst e) in
   let b := flatten limit (snd e) in
-  if name_eqb a b then None
+  if negb (memb (fst e) full && memb (snd e) full) then None
+  else if name_eqb a b then None
   else if memb a ns && memb b ns && negb (childb a b) then Some (a, b) else None.
 
 Fixpoint filter_map {X Y} (f : X -> option Y) (l : list X) : list Y :=
@@ -57,7 +61,8 @@ Definition build_graph (mods : list name) (imports : list (name * name)) (limit 
      importers processed so far; importer ancestors are ancestors of modules, so the
      final node set is already reached after the module pass *)
   let ns := build_nodes limit mods imports in
-  {| nodes := ns; imps := pdedup ceqb (filter_map (keep_import ns limit) imports) |}.
+  let full := build_nodes None mods imports in
+  {| nodes := ns; imps := pdedup ceqb (filter_map (keep_import full ns limit) imports) |}.
 
 End Graph.
 Arguments nodes {comp} g.
